@@ -62,6 +62,9 @@ class LoopAdapter:
                 raise d.Quit()
             elif kind == 'quit_loop':
                 d.quit_loop()
+            elif kind == 'clrquit':
+                d.default_loop.current_world_handle.clear()
+                d.quit_loop()
             elif kind == 'error':
                 raise RuntimeError('planned')
             elif kind == 'poke':
@@ -170,7 +173,7 @@ class LoopAdapter:
                     while j < len(plan) and plan[j][0] == 'frame':
                         frames.append(plan[j][1:])
                         j += 1
-                        if frames[-1][2][0] in ('quit', 'quit_loop', 'error'):
+                        if frames[-1][2][0] in ('quit', 'quit_loop', 'clrquit', 'error'):
                             break
                     env.frames = frames
                     env.fi = -1
